@@ -225,38 +225,134 @@ def ob_total_items(ctx, res):
         res.ok(incs[0], "%s: total_items += 1 once per entry, unconditionally, stored into the chromosome summary" % impl)
 
 
+class _MergeIdiom(Exception):
+    pass
+
+
+def _run_merge(block, env):
+    """execute a merge block (assignments / += on <base>.<field>, if/else on comparisons of such fields) on concrete numbers"""
+    def val(e):
+        e = strip(e)
+        if e.k == "lit" and e["t"] in ("int", "float"):
+            return float(e["v"]) if "." in str(e["v"]) else int(re.sub(r"[a-z_].*$", "", str(e["v"])) or 0)
+        if e.k == "field":
+            k = up(e)
+            if k not in env:
+                raise _MergeIdiom("unknown value `%s`" % k)
+            return env[k]
+        if e.k == "mcall" and e["method"] in ("min", "max") and len(e["args"]) == 1:
+            a_, b_ = val(e["recv"]), val(e["args"][0])
+            return min(a_, b_) if e["method"] == "min" else max(a_, b_)
+        if e.k == "binary" and e["op"] in ("+", "-", "*"):
+            a_, b_ = val(e["l"]), val(e["r"])
+            return a_ + b_ if e["op"] == "+" else a_ - b_ if e["op"] == "-" else a_ * b_
+        raise _MergeIdiom("expression `%s`" % up(e)[:50])
+
+    def cond(c):
+        c = strip(c)
+        if c.k == "binary" and c["op"] in ("&&", "||"):
+            return (cond(c["l"]) and cond(c["r"])) if c["op"] == "&&" else (cond(c["l"]) or cond(c["r"]))
+        if c.k == "unary" and c["op"] == "!":
+            return not cond(c["e"])
+        if c.k == "binary" and c["op"] in ("<", "<=", ">", ">=", "==", "!="):
+            a_, b_ = val(c["l"]), val(c["r"])
+            return {"<": a_ < b_, "<=": a_ <= b_, ">": a_ > b_, ">=": a_ >= b_, "==": a_ == b_, "!=": a_ != b_}[c["op"]]
+        raise _MergeIdiom("condition `%s`" % up(c)[:50])
+
+    def run(blk):
+        for st in strip(blk)["stmts"]:
+            e = strip(st["e"]) if st.k == "expr_stmt" else None
+            if e is None:
+                raise _MergeIdiom("statement `%s`" % up(st)[:50])
+            if e.k == "if":
+                if cond(e["cond"]):
+                    run(e["then"])
+                elif e.get("else") is not None:
+                    run(e["else"])
+            elif e.k == "assign":
+                env[up(strip(e["l"]))] = val(e["r"])
+            elif e.k == "binary" and e["op"] == "+=":
+                k = up(strip(e["l"]))
+                env[k] = env[k] + val(e["r"])
+            elif e.k == "block":
+                run(e)
+            else:
+                raise _MergeIdiom("statement `%s`" % up(st)[:50])
+    run(block)
+    return env
+
+
 def ob_merge(ctx, res):
-    """C06-A3"""
+    """C06-A3: the per-chromosome merge, decided by running the merge block on concrete summaries for every combination of
+    (running summary has covered bases or not) x (chromosome has covered bases or not) x (which of the two has the smaller minimum / larger maximum)"""
     for name in ("write_vals", "write_vals_no_zoom"):
         fn = ctx.ast.fn(W, name)
-        gs = [g for g in S.summary_blocks(fn.body)]
-        if len(gs) != 1:
-            res.fail("merge/%s/sites" % name, fn, "expected one per-chromosome merge block, found %d" % len(gs))
+        ms = [m for m in walk_no_nested_fn(fn.body) if m.k == "match" and len(m["arms"]) == 2 and {up(a["pat"]).split("(")[0] for a in m["arms"]} == {"None", "Some"}
+              and any("bases_covered" in up(a["body"]) and "+=" in up(a["body"]) for a in m["arms"])]
+        if len(ms) != 1:
+            res.fail("merge/%s/sites" % name, fn, "expected one per-chromosome merge (`match &mut summary { None => .., Some(..) => .. }`), found %d" % len(ms))
             continue
-        g = gs[0]
-        other, err = S.check_merge(g)
-        if err:
-            res.fail("merge/%s/form" % name, g["nodes"][0], "chromosome summaries are not merged field-wise: " + err)
+        m = ms[0]
+        na = [a for a in m["arms"] if up(a["pat"]) == "None"][0]
+        sa = [a for a in m["arms"] if up(a["pat"]).startswith("Some(")][0]
+        base = up(sa["pat"])[5:-1]
+        mm = re.fullmatch(r"(\w+) = Some\((\w+)\)", up(strip(na["body"])))
+        if not mm:
+            res.fail("merge/%s/first" % name, na, "the first chromosome's summary must be taken as is (None => summary = Some(chrom_summary))")
             continue
-        # match &mut summary { None => summary = Some(other), Some(summary) => merge }
-        arm = g["block"].parent
-        while arm is not None and arm.k != "arm":
-            arm = arm.parent
-        m = arm.parent if arm is not None else None
-        ok = False
-        if m is not None and m.k == "match" and len(m["arms"]) == 2:
-            na = [a for a in m["arms"] if up(a["pat"]) == "None"]
-            if len(na) == 1 and re.fullmatch(r"\w+ = Some\(%s\)" % re.escape(other), up(strip(na[0]["body"]))):
-                ok = True
-        if not ok:
-            res.fail("merge/%s/first" % name, g["nodes"][0], "the first chromosome's summary must be taken as is (None => summary = Some(chrom_summary))")
-            continue
-        # other comes from p.destroy()
-        oo = _local_origin(fn, other, g["nodes"][0]) or ""
+        other = mm.group(2)
+        oo = _local_origin(fn, other, m) or ""
         if ".destroy()" not in oo:
-            res.fail("merge/%s/source" % name, g["nodes"][0], "merged summary must be the one returned by the chromosome processor's destroy(); origin %s" % oo)
+            res.fail("merge/%s/source" % name, m, "merged summary must be the one returned by the chromosome processor's destroy(); origin %s" % oo)
             continue
-        res.ok(g["nodes"][0], "%s: first chromosome taken as is, then items/bases/sum/sumsq +=, min/max folded with the processor's summary" % name)
+        bad = None
+        cases = 0
+        for sb in (0, 4):
+            for cb in (0, 6):
+                for (smin, smax, cmin, cmax) in ((3.0, 7.0, 1.0, 9.0), (1.0, 9.0, 3.0, 7.0), (2.0, 5.0, 2.0, 5.0)):
+                    if sb == 0:
+                        smin_, smax_ = 0.0, 0.0      # the placeholder of a summary without covered bases
+                    else:
+                        smin_, smax_ = smin, smax
+                    if cb == 0:
+                        cmin_, cmax_ = 0.0, 0.0
+                    else:
+                        cmin_, cmax_ = cmin, cmax
+                    env = {}
+                    for b_, vals in ((base, (2, sb, smin_, smax_, 10.0, 30.0)), (other, (3, cb, cmin_, cmax_, 20.0, 50.0))):
+                        for f_, v_ in zip(("total_items", "bases_covered", "min_val", "max_val", "sum", "sum_squares"), vals):
+                            env["%s.%s" % (b_, f_)] = v_
+                    try:
+                        out = _run_merge(sa["body"], env)
+                    except _MergeIdiom as e:
+                        bad = "merge block not analysable: %s" % e
+                        break
+                    cases += 1
+                    want = {"total_items": 5, "bases_covered": sb + cb, "sum": 30.0, "sum_squares": 80.0}
+                    if sb and cb:
+                        want["min_val"], want["max_val"] = min(smin_, cmin_), max(smax_, cmax_)
+                    elif cb:
+                        want["min_val"], want["max_val"] = cmin_, cmax_
+                    elif sb:
+                        want["min_val"], want["max_val"] = smin_, smax_
+                    for f_, w_ in want.items():
+                        if out["%s.%s" % (base, f_)] != w_:
+                            bad = ("with %s covered bases so far (min %s, max %s) and a chromosome with %s covered bases (min %s, max %s) the merged %s is %s, must be %s"
+                                   % (sb, smin_, smax_, cb, cmin_, cmax_, f_, out["%s.%s" % (base, f_)], w_))
+                            if f_ in ("min_val", "max_val") and (sb == 0 or cb == 0):
+                                bad += ": a chromosome (or everything before it) without a covered base only has a 0.0 placeholder, which must not be folded into min/max " \
+                                       "(bigBed `chrA 0 5`, `chrB 1 1`: minimum depth 0 reported)"
+                            break
+                    if bad:
+                        break
+                if bad:
+                    break
+            if bad:
+                break
+        if bad:
+            res.fail("merge/%s/semantics" % name, sa, bad)
+            continue
+        res.ok(sa, "%s: first chromosome taken as is; then items/bases/sum/sumsq added and min/max folded only between summaries that have covered bases (%d concrete cases)" % (name, cases))
 
 
 def ob_avg_stats(ctx, res):
